@@ -12,12 +12,14 @@ import (
 	"sync"
 
 	"github.com/gogo/protobuf/proto"
+	dbm "github.com/tendermint/tm-db"
 
 	"github.com/tendermint/tendermint/consensus"
 	"github.com/tendermint/tendermint/crypto/merkle"
 	"github.com/tendermint/tendermint/crypto/tmhash"
 	tmcons "github.com/tendermint/tendermint/proto/tendermint/consensus"
 	tmproto "github.com/tendermint/tendermint/proto/tendermint/types"
+	"github.com/tendermint/tendermint/store"
 	"github.com/tendermint/tendermint/types"
 
 	"verifharness/core"
@@ -108,6 +110,7 @@ func verifyClass(err error) string {
 func execCase(c core.Case) []string {
 	var out []string
 	var ps *types.PartSet
+	var bst *store.BlockStore
 	var cst *consensus.VerifPartsState
 	defer func() {
 		if cst != nil {
@@ -141,6 +144,64 @@ func execCase(c core.Case) []string {
 				}
 			}
 			out = append(out, proposalClass(err))
+		case "ssave":
+			if bst == nil {
+				bst = store.NewBlockStore(dbm.NewMemDB())
+			}
+			out = append(out, func() (res string) {
+				defer func() {
+					if r := recover(); r != nil {
+						res = fmt.Sprintf("panic:%v", r)
+					}
+				}()
+				h, _ := strconv.ParseInt(m["h"], 10, 64)
+				k, _ := strconv.Atoi(m["psize"])
+				var pbb tmproto.Block
+				if err := proto.Unmarshal(unhx(m["data"]), &pbb); err != nil {
+					return "bad-op"
+				}
+				blk, err := types.BlockFromProto(&pbb)
+				if err != nil || blk.Height != h {
+					return "bad-op"
+				}
+				ps := blk.MakePartSet(uint32(k))
+				bst.SaveBlock(blk, ps, &types.Commit{Height: h})
+				return fmt.Sprintf("saved %d %s", ps.Total(), hx(ps.Hash()))
+			}())
+		case "sload":
+			if bst == nil {
+				bst = store.NewBlockStore(dbm.NewMemDB())
+			}
+			out = append(out, func() (res string) {
+				defer func() {
+					if r := recover(); r != nil {
+						res = fmt.Sprintf("panic:%v", r)
+					}
+				}()
+				h, _ := strconv.ParseInt(m["h"], 10, 64)
+				meta := bst.LoadBlockMeta(h)
+				if meta == nil {
+					return "nil"
+				}
+				b := "nil"
+				if blk := bst.LoadBlock(h); blk != nil {
+					if pb, err := blk.ToProto(); err == nil {
+						if bz, err := proto.Marshal(pb); err == nil {
+							b = hx(tmhash.Sum(bz))
+						}
+					}
+				}
+				psh := meta.BlockID.PartSetHeader
+				parts := make([]string, psh.Total)
+				for i := range parts {
+					if pt := bst.LoadBlockPart(h, i); pt != nil {
+						parts[i] = fmt.Sprintf("%d:%s/%s", pt.Index, hx(pt.Bytes), showProof(&pt.Proof))
+					} else {
+						parts[i] = "?"
+					}
+				}
+				return fmt.Sprintf("block=%s hdr=%d/%s parts=%s", b, psh.Total, hx(psh.Hash), strings.Join(parts, ";"))
+			}())
 		case "cstate":
 			if cst != nil {
 				cst.Stop()
@@ -526,6 +587,8 @@ func oracle(c core.Case, out []string) []core.Finding {
 	var curRoot []byte
 	haveHdr := false
 	var cHeight, cMax, cSize int64
+	var saved map[string][]byte
+	var savedK map[string]int
 	for i, op := range c.Ops {
 		m := kv(op)
 		switch strings.Fields(op)[0] {
@@ -534,6 +597,36 @@ func oracle(c core.Case, out []string) []core.Finding {
 			k, _ := strconv.Atoi(m["psize"])
 			pieces = split(data, k)
 			curTotal, curRoot, haveHdr = len(pieces), merkle.HashFromByteSlices(pieces), true
+		case "ssave":
+			if saved == nil {
+				saved = map[string][]byte{}
+				savedK = map[string]int{}
+			}
+			saved[m["h"]] = unhx(m["data"])
+			savedK[m["h"]], _ = strconv.Atoi(m["psize"])
+		case "sload":
+			d, ok := saved[m["h"]]
+			if !ok {
+				if out[i] != "nil" {
+					fs = append(fs, core.Finding{Fingerprint: "store.LoadBlock.returns-block-never-saved", Desc: "the block store returns a block for height " + m["h"] + " that was never saved"})
+				}
+				continue
+			}
+			pcs := split(d, savedK[m["h"]])
+			wantParts := make([]string, len(pcs))
+			_, prf := merkle.ProofsFromByteSlices(pcs)
+			for j := range pcs {
+				wantParts[j] = fmt.Sprintf("%d:%s/%s", j, hx(pcs[j]), showProof(prf[j]))
+			}
+			want := fmt.Sprintf("block=%s hdr=%d/%s parts=%s", hx(tmhash.Sum(d)), len(pcs), hx(merkle.HashFromByteSlices(pcs)), strings.Join(wantParts, ";"))
+			if out[i] != want {
+				what := "parts"
+				if !strings.HasPrefix(out[i], "block="+hx(tmhash.Sum(d))+" ") {
+					what = "block"
+				}
+				fs = append(fs, core.Finding{Fingerprint: "store.LoadBlock.differs-from-saved." + what,
+					Desc: fmt.Sprintf("height %s read back from the block store is not what was saved (block bytes, part-set header, or a part/proof at its index): got %.200s", m["h"], out[i])})
+			}
 		case "proposal":
 			if out[i] == "ok" {
 				t, _ := strconv.Atoi(m["total"])
@@ -1522,6 +1615,42 @@ func genProposal(r *rand.Rand, emit func(core.Case), n int) {
 	}
 }
 
+// genStore: the block store as keeper of part sets — contiguous blocks saved with random part
+// sizes, read back (block, meta header, every part with its proof) in random order, interleaved
+// with further saves; heights never saved.
+func genStore(r *rand.Rand, emit func(core.Case), n int) {
+	for c := 0; c < n; c++ {
+		h0 := int64(1 + r.Intn(3))
+		nb := 1 + r.Intn(5)
+		long := r.Intn(8) == 0 // heights 1..12 with a dozen parts and more each: (h, i) pairs like (1, 11) and (11, 1)
+		if long {
+			h0, nb = 1, 11+r.Intn(3)
+		}
+		var ops []string
+		var hs []int64
+		for b := 0; b < nb; b++ {
+			h := h0 + int64(b)
+			_, bz := genBlock(r, h)
+			psz := 8 + r.Intn(70)
+			if long {
+				psz = 6 + r.Intn(10)
+			} else if r.Intn(5) == 0 {
+				psz = 1 + r.Intn(4) + len(bz) // a single part
+			}
+			ops = append(ops, fmt.Sprintf("ssave h=%d data=%s psize=%d", h, hx(bz), psz))
+			hs = append(hs, h)
+			for r.Intn(2) == 0 {
+				ops = append(ops, fmt.Sprintf("sload h=%d", hs[r.Intn(len(hs))]))
+			}
+		}
+		for _, i := range r.Perm(len(hs)) {
+			ops = append(ops, fmt.Sprintf("sload h=%d", hs[i]))
+		}
+		ops = append(ops, fmt.Sprintf("sload h=%d", h0+int64(nb)), fmt.Sprintf("sload h=%d", h0-1))
+		emit(core.Case{Kind: "block-store", Ops: ops})
+	}
+}
+
 func main() {
 	core.Main(core.Prop{
 		ID:     "C10",
@@ -1540,12 +1669,13 @@ func main() {
 			genLeaves(r, emit, n/2)
 			genCons(r, emit, n/2)
 			genProposal(r, emit, n/4)
+			genStore(r, emit, n/4)
 		},
 		Exec:   execCase,
 		Oracle: oracle,
 		NonTrivial: func(c core.Case, out []string) bool {
 			for _, o := range out {
-				if o == "ok" || o == "added" || o == "complete" || strings.HasPrefix(o, "added=1") || strings.HasPrefix(o, "ok,") {
+				if o == "ok" || o == "added" || o == "complete" || strings.HasPrefix(o, "saved ") || strings.HasPrefix(o, "added=1") || strings.HasPrefix(o, "ok,") {
 					return true
 				}
 			}
